@@ -196,6 +196,52 @@ def faulty_delivery(kind1: int, kind2: int, ids: int, mv0: int, sv0: int, mv1: i
     return orc.result()
 
 
+def faulty_delivery3(kind1: int, kind2: int, kind3: int, mv0: int, sv0: int, mv1: int, sv1: int, mv2: int, sv2: int,
+                     mv3: int, sv3: int) -> str:
+    """
+    Three arbitrary reports of one provider history (any subset / duplication / re-ordering of three of its reports) delivered
+    to an initialised consumer MDIB; all carry the consumer's SequenceId / InstanceId.
+    pre: 0 <= kind1 <= 2
+    pre: 0 <= kind2 <= 2
+    pre: 0 <= kind3 <= 2
+    pre: mv0 >= 0
+    pre: sv0 >= 0
+    pre: mv1 >= 0
+    pre: sv1 >= 0
+    pre: mv2 >= 0
+    pre: sv2 >= 0
+    pre: mv3 >= 0
+    pre: sv3 >= 0
+    post: __return__ == 'ok'
+    """
+    orc = Oracle()
+    try:
+        reps = ((kind1, mv1, sv1), (kind2, mv2, sv2), (kind3, mv3, sv3))
+        for (kd, mv, sv) in reps:
+            if kd != 2 and (not _functional_vs_snapshot(mv0, sv0, mv, sv) or sv == sv0):
+                return 'ok'
+        for a in range(3):
+            for b in range(a + 1, 3):
+                if reps[a][0] == reps[b][0] and not _functional(reps[a][1], reps[a][2], reps[b][1], reps[b][2]):
+                    return 'ok'
+        # content is a function of (kind, StateVersion)
+        vals = ['va']
+        vals.append('va' if (kind2 == kind1 and sv2 == sv1) else 'vb')
+        if kind3 == kind1 and sv3 == sv1:
+            vals.append('va')
+        elif kind3 == kind2 and sv3 == sv2:
+            vals.append(vals[1])
+        else:
+            vals.append('vc')
+        cm = _consumer(mv0, sv0)
+        _step(cm, orc, 'r1', kind1, mv1, sv1, vals[0], False, False)
+        _step(cm, orc, 'r2', kind2, mv2, sv2, vals[1], False, False)
+        _step(cm, orc, 'r3', kind3, mv3, sv3, vals[2], False, False)
+    except Exception as ex:  # noqa: BLE001
+        return exc_result(orc, ex)
+    return orc.result()
+
+
 class _GetService:
     def __init__(self, cm, mv, sv, during):
         self.cm, self.mv, self.sv, self.during = cm, mv, sv, during
